@@ -190,16 +190,25 @@ static void ref_walk(int want_section, struct ref_res *r)
 			} else {
 				int k;
 
-				/* a plain decimal index; anything else the lenient strtol() may take is grey */
+				/* a plain decimal index.  What else the lenient strtol(.., 0) may take as a number (leading
+				 * blanks, a sign, octal, hex) is grey; a decimal digit 1-9 followed by anything but digits,
+				 * or a 0 followed by something that cannot continue an octal/hex numeral, is not a number
+				 * and - the section having no titles - addresses nothing */
 				idx = 0;
-				for (k = 0; k < tl; k++) {
-					if (title[k] < '0' || title[k] > '9') {
+				if (title[0] >= '1' && title[0] <= '9') {
+					for (k = 0; k < tl; k++) {
+						if (title[k] < '0' || title[k] > '9')
+							return;
+						idx = idx * 10 + (title[k] - '0');
+					}
+				} else if (title[0] == '0') {
+					if (tl > 1) {
+						if (!((title[1] >= '0' && title[1] <= '7') || title[1] == 'x' || title[1] == 'X'))
+							return;
 						r->ok = -1;
 						return;
 					}
-					idx = idx * 10 + (title[k] - '0');
-				}
-				if (tl > 1 && title[0] == '0') {
+				} else {
 					r->ok = -1;
 					return;
 				}
